@@ -2133,3 +2133,19 @@ def to_numpy(a, model=None):
     if a.n is not None:
         arr = arr[:n]
     return arr
+
+
+def flatnonzero(a):
+    return nonzero(asarray(a).ravel())[0]
+
+
+def atleast_1d(a):
+    a = asarray(a)
+    return a.reshape(1) if a.ndim == 0 else a
+
+
+def __getattr__(name):
+    # any numpy attribute the shim does not model: the obligation falls back to degraded mode (DESIGN 1.8)
+    if name.startswith("__"):
+        raise AttributeError(name)
+    raise Unsupported(f"np.{name} is not modelled by the shim")
